@@ -125,6 +125,7 @@ var configs = []config{
 			"Element.Set", "_mulGeneric", "_fromMontGeneric", "_addGeneric",
 			"_doubleGeneric", "_subGeneric", "_negGeneric", "_reduceGeneric",
 			"Element.Halve", "Element.Square", "Element.SetUint64", "Element.ToMont",
+			"Element.Neg", "Element.FromMont", "reduce",
 			"mulByConstant", "MulBy3", "MulBy5", "MulBy13", "_butterflyGeneric",
 			"Butterfly",
 		},
@@ -143,6 +144,7 @@ var configs = []config{
 			"Element.Set", "_mulGeneric", "_fromMontGeneric", "_addGeneric",
 			"_doubleGeneric", "_subGeneric", "_negGeneric", "_reduceGeneric",
 			"Element.Square", "Element.SetUint64", "Element.ToMont",
+			"Element.Neg", "Element.FromMont", "reduce",
 			"mulByConstant", "MulBy3", "MulBy5", "MulBy13", "_butterflyGeneric",
 			"Butterfly",
 		},
